@@ -152,6 +152,12 @@ class Doc:
                 self.header.append((n, t, v))
             return "ok"
         name = self.name_of(r)
+        if r.rt == "L" and self.version == "gfa1" and len(r.pos) == 5:
+            # the complement of a stored link (carrying the same ID, if any) is the same edge
+            a, b = gtext.link_forms(r.pos)
+            for q in self.recs:
+                if q.rt == "L" and tuple(q.pos) == b and self.name_of(q) == name:
+                    return "dup-complement"
         # an identifier mentioned as a segment cannot be defined as anything else, and vice versa
         ns0 = self.namespace()
         if name is not None and r.rt != "S":
